@@ -62,18 +62,28 @@ func valueOps[T proto.Message](names [3]string, get func(...rd) T, update func(T
 	if mk == nil {
 		mk = func(e *env) T { return newMsg[T](e, 50) }
 	}
+	// the written message: fresh, or one held from an earlier read/result/event - except where the model itself edits
+	// its argument before the write (light: the preset is filled in)
+	plain := names[1] != "UpdateBrightness"
+	arg := func(e *env) T {
+		if !plain {
+			m := mk(e)
+			e.in(m)
+			return m
+		}
+		m, _ := written(e, mk)
+		return m
+	}
 	return []op{
 		{name: names[0], ro: true, run: func(e *env) error { e.out("result", get(readOpts(e, z)...)); return nil }},
 		{name: names[1], run: func(e *env) error {
-			m := mk(e)
-			e.in(m)
+			m := arg(e)
 			res, err := update(m, writeOpts(e, z)...)
 			e.out("result", res)
 			return err
 		}},
 		{name: names[1], run: func(e *env) error {
-			m := mk(e)
-			e.in(m)
+			m := arg(e)
 			res, err := update(m)
 			e.out("result", res)
 			return err
@@ -761,7 +771,18 @@ func init() {
 				md.Id, md.Normal = id, false
 				initial = append(initial, md)
 			}
-			m := electricpb.NewModel(electricpb.WithInitialMode(initial...))
+			eopts := []resource.Option{electricpb.WithInitialMode(initial...)}
+			// configurations with writable fields on the resources the model feeds from one another: the active mode
+			// is written with the message read from the modes collection
+			if e.flip(50) {
+				eopts = append(eopts, electricpb.WithActiveModeOption(resource.WithWritablePaths(&traits.ElectricMode{},
+					"id", "title", "start_time", "normal")))
+			}
+			if e.flip(25) {
+				eopts = append(eopts, electricpb.WithModeOption(resource.WithWritablePaths(&traits.ElectricMode{},
+					"id", "title", "description", "voltage", "normal", "segments")))
+			}
+			m := electricpb.NewModel(eopts...)
 			zd, zm := &traits.ElectricDemand{}, &traits.ElectricMode{}
 			ids := []string{"a", "b", "c", "zz"}
 			id := func(e *env) string { return ids[e.r.Intn(len(ids))] }
@@ -793,12 +814,16 @@ func init() {
 						return subscribe(e, "event", func(ctx context.Context) any { return m.PullActiveMode(ctx, o...) })
 					}},
 					{name: "SetActiveMode", run: func(e *env) error {
-						md := mkMode(e, id(e))
-						e.in(md)
+						md, _ := written(e, func(e *env) *traits.ElectricMode { return mkMode(e, id(e)) })
 						return m.SetActiveMode(md)
 					}},
 					{name: "ChangeActiveMode", run: func(e *env) error {
 						res, err := m.ChangeActiveMode(id(e))
+						e.out("result", res)
+						return err
+					}},
+					{name: "ChangeActiveMode/reselect", run: func(e *env) error {
+						res, err := m.ChangeActiveMode(m.ActiveMode().GetId())
 						e.out("result", res)
 						return err
 					}},
@@ -834,8 +859,7 @@ func init() {
 						return m.AddMode(md)
 					}},
 					{name: "UpdateMode", run: func(e *env) error {
-						md := mkMode(e, id(e))
-						e.in(md)
+						md, _ := written(e, func(e *env) *traits.ElectricMode { return mkMode(e, id(e)) })
 						res, err := m.UpdateMode(md, writeOpts(e, zm)...)
 						e.out("result", res)
 						return err
